@@ -73,10 +73,20 @@ func (w *W) put(kind string, v uint64, n int) {
 		w.Fault.Hit = fmt.Sprintf("%s/%dbits:%d->%d", kind, n, orig, v)
 		w.Bits(v, n)
 		if kind == "ext-int" && v == 1 {
-			// an INTEGER claimed to be outside its root: follow with a hostile length octet
+			// an INTEGER claimed to be outside its root: follow with a hostile length octet — and, for the last
+			// three kinds, with that many content octets really present (the enclosing open-type and message
+			// lengths are computed after this, so they agree with it)
 			w.Align()
-			w.Bits([]uint64{0, 9, 0x80, 0xFF, 1}[w.Fault.Variant/5%5], 8)
+			h := w.Fault.Variant / 5 % 8
+			ln := []uint64{0, 9, 0x80, 0xFF, 1, 17, 32, 127}[h]
+			w.Bits(ln, 8)
 			w.Fault.Hit += "+len"
+			if h >= 5 {
+				for i := uint64(0); i < ln; i++ {
+					w.Bits(0x5a+i, 8)
+				}
+				w.Fault.Hit += fmt.Sprintf("+%d-content-octets", ln)
+			}
 		}
 		return
 	}
